@@ -40,7 +40,7 @@ def gen_walk(rng, n):
         if m == "noise":
             # commands that must leave the execution state alone, whatever they print or reject
             walk.append(rng.choice([["print"], ["stack"], ["altstack"], ["vfexec"], ["tf", "echo", "1"], ["tf", "int", "0x0102030405"], ["unknown", "frobnicate"],
-                                    ["exec"], ["exec", "OP_NOSUCHOP"], ["exec", "OP_1", "OP_ADDD"], ["help"], ["tf"]]))
+                                    ["exec"], ["exec", "OP_NOSUCHOP"], ["exec", "OP_1", "OP_ADDD"], ["exec", "7", "OP_TOALTSTACK", "0x08"], ["help"], ["tf"]]))
         else:
             walk.append([m])
     return walk
@@ -195,6 +195,9 @@ def evaluate(ctx, scn):
         for c in s.seam:
             if c.startswith(("sinkfail", "writefail", "closefail", "readfail")):
                 ev.counters["fault:" + c.split()[0]] += 1
+    if run.classify()[0] == "overflow":
+        ev.counters["inconclusive_log_overflow"] += 1      # the event log of this session did not fit: nothing can be said
+        return ev
     cmds = session.parse_session(w, run, items)
     net = 0
     tainted = False          # a step of this history has failed: the statement excludes it from clause 1
